@@ -43,6 +43,51 @@ class Outcome:
             self.detail = detail
 
 
+class RunTimeout(BaseException):
+    """Code under test did not come back within the limit of a simulated run."""
+
+
+def guarded(run_fn, seconds: float = 45.0):
+    """Wrap a property's run(tape): a run that does not return within `seconds` of real time (code under test that
+    loops forever outside the simulated scheduler - renders of a history, references) ends as the violation
+    ("no-termination",) instead of stalling the worker until the pool's 600 s watchdog calls it a harness error.
+    Only in a process's main thread (signals); the timer keeps re-firing every 5 s in case something swallows it."""
+    import signal
+    import threading
+
+    def wrapper(tape):
+        if threading.current_thread() is not threading.main_thread():
+            return run_fn(tape)
+
+        def on_alarm(*_a):
+            raise RunTimeout()
+
+        old = signal.signal(signal.SIGALRM, on_alarm)
+        signal.setitimer(signal.ITIMER_REAL, seconds, 5.0)
+        try:
+            return run_fn(tape)
+        except RunTimeout:
+            try:  # simulated threads of this run may still be spinning: never reuse their carrier OS threads
+                import sys as _sys
+
+                T_ = _sys.modules.get("sim.threads")
+                if T_ is not None:
+                    T_._poison_carriers()
+            except Exception:
+                pass
+            out = Outcome()
+            out.violate(("no-termination",), limit_s=seconds)
+            out.decoded = {"note": "the run did not return within the time limit", "limit_s": seconds}
+            out.trace = "timeout"
+            return out
+        finally:
+            signal.setitimer(signal.ITIMER_REAL, 0)
+            signal.signal(signal.SIGALRM, old)
+
+    wrapper.__wrapped__ = run_fn
+    return wrapper
+
+
 def digest(obj) -> str:
     return hashlib.sha256(
         json.dumps(obj, sort_keys=True, default=repr).encode()
